@@ -193,6 +193,14 @@ def parse_http_response(data, method):
     return Response(status, headers, body)
 
 
+def _forget_open_stores():
+    """A process that ends forgets the stores it had open (the cache the server keeps them in is
+    an implementation detail: when it is not an lru_cache there is nothing to clear here)."""
+    clear = getattr(xweb.open_store_from_path, "cache_clear", None)
+    if clear is not None:
+        clear()
+
+
 class World:
     """One server deployment over one data directory."""
 
@@ -218,7 +226,7 @@ class World:
 
     # -- life cycle -------------------------------------------------------
     def start(self):
-        xweb.open_store_from_path.cache_clear()
+        _forget_open_stores()
         backend = xweb.XandikosBackend(
             self.root, paranoid=self.paranoid, index_threshold=self.index_threshold
         )
@@ -238,7 +246,7 @@ class World:
             self._aio = None
         self.app = None
         self.backend = None
-        xweb.open_store_from_path.cache_clear()
+        _forget_open_stores()
 
     def restart(self, defaults=None):
         """Stop and start again; defaults: start with (True) / without (False) --defaults."""
